@@ -50,3 +50,25 @@ Print Assumptions C10_vec_insertpos16_scan.
 Theorem C10_params_hold : params_ok.
 Proof. exact params_hold. Qed.
 Print Assumptions C10_params_hold.
+
+(* ---- node.go regenerated: the translation of the current source (Gen/NodeGen.v, written by
+   go/cmd/srcfacts/translate_node.go on every run in the vocabulary of Model/GoNode.v) is the
+   hand-written raw-storage model (Model/Pool.v, Model/PoolTree.v) ---- *)
+From GoArt Require Import Model.Pool Model.PoolTree Model.GoNode Gen.NodeGen Proofs.TranslateNodeFacts.
+
+Theorem C10_regenerated_node48_addChild : forall (C : Type) h idx (ch : list (option C)) b c os p,
+  Pool.shape_ok (X48 h idx ch) = true -> pool_shapes p -> xlen h < maxNode48 \/ bytes_lt idx ->
+  g_node48_addChild (X48 h idx ch) b c os p = Pool.xadd48 h idx ch b c os p.
+Proof. exact @gen_node48_addChild_eq. Qed.
+Print Assumptions C10_regenerated_node48_addChild.
+
+Theorem C10_regenerated_node16_deleteChild : forall (C : Type) h keys (ch : list (option C)) b os p,
+  Pool.shape_ok (X16 h keys ch) = true -> pool_shapes p -> (0 <= searchNode16 keys (xlen h) b < 16)%Z ->
+  g_node16_deleteChild (X16 h keys ch) b os p = Pool.xdel16 h keys ch b os p.
+Proof. exact @gen_node16_deleteChild_eq. Qed.
+Print Assumptions C10_regenerated_node16_deleteChild.
+
+Theorem C10_regenerated_findChild : forall (C : Type) (n : xnode C) b, idx_bytes n ->
+  g_findChild n b = PoolTree.xfind n b.
+Proof. exact @gen_findChild_eq. Qed.
+Print Assumptions C10_regenerated_findChild.
